@@ -95,7 +95,8 @@ func cleanupPods(client client.Client, logger logr.Logger, status *datadoghqv1al
 		conditionStatus = corev1.ConditionFalse
 	}
 	if len(pods) != 0 {
-		conditions.UpdateExtendedDaemonSetReplicaSetStatusCondition(status, now, datadoghqv1alpha1.ConditionTypePodsCleanupDone, conditionStatus, "", "", false, false)
+		// Record a failed clean-up even if the condition was never set before.
+		conditions.UpdateExtendedDaemonSetReplicaSetStatusCondition(status, now, datadoghqv1alpha1.ConditionTypePodsCleanupDone, conditionStatus, "", "", true, false)
 	}
 
 	return utilserrors.NewAggregate(errs)
